@@ -34,7 +34,7 @@ ASSUMPTIONS = ["compared: utterances, t1/t2/t4/apply/turn/health.jsonl bytes und
                "episodes always carry a valid ts (a missing ts falls back to the wall clock in the recency filter)"]
 
 FEATURES = ["caches_off", "t1_parallel", "sched_budgets", "gel", "reflection", "hybrid", "quality", "perf_metrics", "agent_scope",
-            "kill_switch", "snapshot_every_2"]
+            "kill_switch", "snapshot_every_2", "snippet_template"]
 
 
 def feature_overrides(feats, draw_vals):
@@ -67,6 +67,8 @@ def feature_overrides(feats, draw_vals):
         o = world.deep_merge(o, {"t4": {"enabled": False}})
     if "snapshot_every_2" in feats:
         o = world.deep_merge(o, {"t4": {"snapshot_every_n_turns": 2}})
+    if "snippet_template" in feats:
+        o = world.deep_merge(o, {"t3": {"dialogue": {"template": "say {labels} | {snippets} | {intent}", "include_top_k_snippets": 3}}})
     return o
 
 
